@@ -28,7 +28,7 @@ CLAIMS = {
              'C12_wrapper_broadcast_refuted keeps the witness for the old code.'),
     'C01': dict(
         technique='Coq proof that the scheduler\'s op list, executed gate by gate, satisfies every node\'s equation for all well-formed acyclic netlists (+ uniqueness), over regenerated LUT/dispatch tables; memory map by certificate; exact correspondence; gate-by-gate oracle',
-        text='Proof (end to end for all option combinations, from the compared model down to the unique gate-by-gate solution). Proved for all inputs: every LUT constant equals its primitive\'s '
+        text='Proof (end to end for all option combinations, from the compared model down to the unique gate-by-gate solution). SCHEDULER SOURCE TIE (round 3): translate/gen_simops.py regenerates Gen/SimOpsSrc.v from the current text of SimOps.__init__; the op-building loop is PROVED equal to build_ops for every netlist (C01_simops_ops_source_is_model[_wf], incl. the a_ctrl columns), the stem table and the level / reference-count pass equal the model under wf_netlist (C07_simops_stems / _levels_source_is_model[_wf]), and the whole constructor equals its allocation section run on the model\'s rows / stems / counts / level boundaries (C08_simops_source_prefix_wf_partial; the allocation section itself is pinned and correspondence-tied). Proved for all inputs: every LUT constant equals its primitive\'s '
              'Boolean function; both 2-valued dispatch copies (re-traced from the source on every run) compute it per lane; primitive '
              'selection; opcode injectivity; lane independence for any batch size; and the MAIN theorem: for EVERY well-formed, '
              'combinationally acyclic netlist and EVERY stimulus the op list that SimOps builds (Kahn order, interface BUF/INV ops, forks, '
@@ -111,7 +111,7 @@ CLAIMS = {
         note='Modelled not verified: SimOps.__init__ (correspondence for every option setting). Dataset mode 2 (random picking) and sd>0 capture are outside the claim; the GPU kernels are compared with the CPU loops differentially, their bodies are not modelled separately.'),
     'C07': dict(
         technique='Coq proofs: the scheduler\'s op list is in single-assignment topological form for every well-formed acyclic netlist with and without fork stripping; greedy levelisation yields an independent partition; any order inside levels gives the same signals; launcher model tied to the real MockCuda; permuted-schedule execution',
-        text='Proof (full at op granularity; launcher from source). LAUNCHER SOURCE TIE (round 3): C07_launcher_source_is_model (translate/gen_launch.py regenerates Gen/LaunchSrc.v from MockCuda; proved equal to Model/Launch.v, every in-range instance exactly once). For EVERY well-formed, combinationally acyclic netlist, with AND without fork stripping, the op list SimOps builds is in '
+        text='Proof (full at op granularity; launcher, stem table and level pass from source). C07_simops_stems_source_is_model / C07_simops_levels_source_is_model: the translated stem table, reference counts, level_starts and level_stops of SimOps.__init__ equal the model (Gen/SimOpsSrc.v). LAUNCHER SOURCE TIE (round 3): C07_launcher_source_is_model (translate/gen_launch.py regenerates Gen/LaunchSrc.v from MockCuda; proved equal to Model/Launch.v, every in-range instance exactly once). For EVERY well-formed, combinationally acyclic netlist, with AND without fork stripping, the op list SimOps builds is in '
              'single-assignment topological form over the stem aliases (C07_build_ops_ssa, C07_build_ops_ssa_strip; stems are characterised as the heads of fork chains and '
              'build_stems is total), hence the published level partition passes the schedule check (C07_build_levels_valid[_strip], and C07_build_sched_cert for every '
              'result of build() under any option and capacity setting): no op reads or overwrites an output of its own level (scratch slot excepted); for every such '
@@ -124,7 +124,7 @@ CLAIMS = {
         note='Modelled not verified: SimOps.__init__ (correspondence). Interleavings below kernel-instance granularity are not modelled (the mock launcher cannot exhibit them).'),
     'C08': dict(
         technique='Coq proofs: allocator invariants over all alloc/free histories (refinement to a block list); SimOps.build passes a proved-sound ownership certificate for ALL netlists and all four c_reuse x strip_forks combinations (invariant over the alloc/release events: reference count = pins + reads to come); step-by-step correspondence; overlap oracle',
-        text='Proof (full for the allocator as written and the modelled map). ALLOCATOR SOURCE TIE (round 3): translate/gen_heap.py regenerates Gen/HeapSrc.v from the current text of class Heap (state-passing let-chain, every partial Python operation as an option in evaluation order, the enumerate loop as a structural scan) and the translated alloc / free / __init__ are PROVED equal to the hand model on every state reachable by well-formed use -- no KeyError / IndexError can occur there (C08_heap_source_is_model; exact preconditions and their necessity: C08_heap_source_exact, _precondition_needed), so the allocator theorems speak about the code as written. ALLOCATOR: for ALL histories of well-formed use the Gallina transcription of sim.Heap keeps its '
+        text='Proof (full for the allocator as written and the modelled map). ALLOCATOR SOURCE TIE (round 3): translate/gen_heap.py regenerates Gen/HeapSrc.v from the current text of class Heap (state-passing let-chain, every partial Python operation as an option in evaluation order, the enumerate loop as a structural scan) and the translated alloc / free / __init__ are PROVED equal to the hand model on every state reachable by well-formed use -- no KeyError / IndexError can occur there (C08_heap_source_is_model; exact preconditions and their necessity: C08_heap_source_exact, _precondition_needed), so the allocator theorems speak about the code as written. MAP SOURCE TIE (partial): C08_simops_source_prefix_wf_partial -- the translated constructor = its (pinned, correspondence-tied) allocation section on the model\'s rows / stems / reference counts / level boundaries; C08_simops_alloc_section_pinned. ALLOCATOR: for ALL histories of well-formed use the Gallina transcription of sim.Heap keeps its '
              'regions tiling the managed range with free regions coalesced, never returns a region overlapping a live one, keeps live '
              'regions unchanged, reports the true high-water mark, and frees commute (so Python\'s set iteration order is irrelevant); compared with sim.Heap '
              'after EVERY step of random histories (full tables). MAP: the ownership certificate is proved sound (a map that passes it makes flat-memory '
